@@ -125,7 +125,11 @@ class Check:
         if (violations or self.errors) and not self.only and not os.environ.get("BVSTATIC_NO_E8"):
             try:
                 from . import equiv
-                eq = equiv.compare(self.repo)
+                if equiv.is_reference_tree(self.repo):
+                    # the tree *is* the reference: a failing rule is a defect of the rule or of its frozen data
+                    eq = {"equivalent": False, "unproven": ["(the tree is textually the reference tree: nothing is carried over)"], "functions": 0}
+                else:
+                    eq = equiv.compare(self.repo)
             except Exception as e:      # the prover failing must never hide a report
                 eq = {"equivalent": False, "unproven": [f"E8 failed: {type(e).__name__}: {e}"], "functions": 0}
             if eq["equivalent"]:
